@@ -10,12 +10,14 @@ ASSUME = [
 
 def run(tier: str, seed: int):
     if tier == 'quick':
-        cfgs = list(F.fam_faults(1, 4, max_faults=1, reqs='subsets')) + list(F.fam_faults(2, 3, max_faults=2, reqs='subsets', pre=True))
+        cfgs = (list(F.fam_faults(1, 4, max_faults=1, reqs='subsets')) + list(F.fam_faults(2, 3, max_faults=2, reqs='subsets', pre=True))
+                + list(F.fam_faults(2, 3, max_faults=2, reqs='sinks', types='TB')) + list(F.fam_faults(2, 3, max_faults=2, reqs='sinks', types='TC')))
         serial = list(F.fam_faults(1, 3, max_faults=2, kinds=('raise',)))
         rule = 'all DAG shapes n<=4 x requested subsets x single fault (raise|died) x continue_on_failure; n<=3 fault sets <=2 x pre-cached subsets; every completion order (batch<=2)'
         e3c = list(F.fam_e3(F.fam_faults(1, 3, max_faults=1, reqs='sinks'), workers=(1, 2), die_exit0=(False, True)))
     else:
         cfgs = (list(F.fam_faults(1, 4, max_faults=2, reqs='subsets', batch=3)) + list(F.fam_faults(5, 5, max_faults=1, reqs='sinks'))
+                + list(F.fam_faults(2, 4, max_faults=2, reqs='sinks', types='TB')) + list(F.fam_faults(2, 4, max_faults=2, reqs='sinks', types='TC'))
                 + list(F.fam_faults(2, 4, max_faults=2, reqs='sinks', pre=True)))
         serial = list(F.fam_faults(1, 4, max_faults=2, kinds=('raise',)))
         rule = 'n<=4 fault sets <=2 batch<=3; n=5 single faults; pre-cache x faults n<=4'
